@@ -174,7 +174,7 @@ class _Sched:
     """Deterministic two-thread scheduler: a scheduled thread blocks at every gate until the
     controller (main thread), walking the schedule produced by TLC, grants it one step."""
 
-    def __init__(self, steps, timeout=10.0):
+    def __init__(self, steps, timeout=60.0):
         import threading
         self.steps = steps
         self.cv = threading.Condition()
@@ -811,6 +811,11 @@ def _r1(rep, d, tier):
               nest=False, inv="INVARIANT I3\n"), ("I3",)),
     ]
 
+    if big:
+        jobs.append(("ideal: confkey marker, locked patch, 2 threads, nested imports, 3 runs",
+                     dict(mods=ab, confs=["default", "nopep"], threads=[1, 2], maxsrc=2, maxruns=3, marker="confkey",
+                          patch="locked", nest=True), None))
+
     def one(i):
         label, kw, want = jobs[i]
         cfg = _cfg(d, "r1_%d" % i, **kw)
@@ -833,18 +838,43 @@ def _r1(rep, d, tier):
             rep.add("spec_mutants_killed")
 
 
-def _tables(rep, d, marker):
+def _tables(rep, d):
+    """Want(c) and the file tags per configuration, as computed by TLC from PycCache.tla."""
     from verifkit import tlc
     from verifkit.util import write_file
-    write_file(d, "MCTables_%s.tla" % marker,
-               "---- MODULE MCTables_%s ----\nEXTENDS PycCache, Json\nASSUME PrintT(ToJson(Tables))\n====\n" % marker)
-    cfg = _cfg(d, "MCTables_%s" % marker, mods=["a"], confs=["default"], threads=[1], maxsrc=1, maxruns=0,
-               marker=marker, patch="unlocked", nest=False, inv="")
-    res = tlc.run_tlc(os.path.join(d, "MCTables_%s.tla" % marker), cfg, workers=1)
+    write_file(d, "MCTables.tla", "---- MODULE MCTables ----\nEXTENDS PycCache, Json\nASSUME PrintT(ToJson(Tables))\n====\n")
+    cfg = _cfg(d, "MCTables", mods=["a"], confs=["default"], threads=[1], maxsrc=1, maxruns=0,
+               marker="confkey", patch="unlocked", nest=False, inv="")
+    res = tlc.run_tlc(os.path.join(d, "MCTables.tla"), cfg, workers=1)
+    rep.tlc(res, "Tables (Want, tags)")
     rows = [r for r in res.printed if isinstance(r, dict) and "want" in r]
     if not rows:
         rep.machinery("PycCache.tla Tables were not emitted")
     return rows[0]
+
+
+def _scan_events(rep, log, beh):
+    """Direct reading of one run's events, independent of any model: the loader transformed a module
+    it had looked up as unhooked (or vice versa), or wrote transformed bytecode to an unmarked file."""
+    found = False
+    looked, transformed = {}, {}
+    for e in log:
+        k = (e.get("th"), e.get("name"))
+        if e["ev"] == "Lookup":
+            looked[k] = e["hooked"]
+        elif e["ev"] == "Compile":
+            transformed[k] = bool(e.get("transform"))
+            if k in looked and looked[k] != transformed[k]:
+                found = True
+                rep.violation({"transform_mismatch": {"looked_up_as_hooked": looked[k], "transformed": transformed[k]}},
+                              f"module {e['name']}: get_code looked it up as {'hooked' if looked[k] else 'unhooked'} but "
+                              f"source_to_code {'transformed' if transformed[k] else 'did not transform'} it "
+                              f"(run of {beh['steps']})", beh)
+        elif e["ev"] == "Write" and e.get("marker") == "" and (transformed.get(k) or e["body"]["hooked"]):
+            found = True
+            rep.violation({"mixed": "hooked bytecode in unmarked file", "module_in_tree": e["name"].startswith(("pa", "pb"))},
+                          f"module {e['name']}: transformed bytecode written to the unmarked file (run of {beh['steps']})", beh)
+    return found
 
 
 # ---- reference runs (empty cache) --------------------------------------------------------
@@ -852,8 +882,7 @@ def _references(rep, ctx, d, pool):
     """The statement's own reference: every configuration on an empty cache, both source versions.
     Also validates concretiser and projection against the spec's tables, and detects the marker
     and patch disciplines of the implementation under test."""
-    tabs = _tables(rep, d, "confkey")
-    want = tabs["want"]
+    tabs_f = pool.submit(_tables, rep, d)
     cases = [(c, v) for c in ALL_CONFS + ["off"] for v in (1, 2)]
 
     def one(cv):
@@ -861,7 +890,13 @@ def _references(rep, ctx, d, pool):
         steps = [{"op": "edit", "m": "a"}] * (v - 1) + [{"op": "run", "hook": {"a": c}, "order": ["a"]}]
         return ctx.exec_behaviour({"steps": steps})
     res = list(pool.map(one, cases))
+    tabs = tabs_f.result()
+    want = tabs["want"]
     patched = {}
+    scanned = [_scan_events(rep, log, {"kind": "seq", "steps": [{"op": "run", "hook": {"a": c}, "order": ["a"]}]})
+               for (c, v), (runs, log) in zip(cases, res)]
+    if any(scanned):
+        return False
     for (c, v), (runs, log) in zip(cases, res):
         r = runs[-1]
         rep.count()
@@ -902,7 +937,7 @@ def _references(rep, ctx, d, pool):
         ctx.marker_mode = "confkey"
     else:
         rep.machinery(f"marker discipline of the implementation is neither v0230 nor confkey: {mk}")
-    tags = _tables(rep, d, ctx.marker_mode)["tag"]
+    tags = tabs["tag_" + ctx.marker_mode]
     for c in ALL_CONFS:
         ctx.tag_of_marker[mk[c]] = tags[c]
     # patch discipline
@@ -1060,7 +1095,7 @@ def _check_run(rep, ctx, beh, ri, r, exp_state, origin):
 def _seq_configs(tier):
     return [("seq1", dict(mods=["a"], confs=ALL_CONFS, threads=[1], maxsrc=2, maxruns=3), 200 if tier == "quick" else None),
             ("seq2", dict(mods=["a", "b"], confs=["default", "nopep"], threads=[1], maxsrc=1 if tier == "quick" else 2,
-                          maxruns=2), 40 if tier == "quick" else 1500)]
+                          maxruns=2), 40 if tier == "quick" else 800)]
 
 
 def _conc_kw(ctx):
@@ -1077,7 +1112,7 @@ def _launch_tlc(ctx, d, tier, tpool):
         fut[label] = tpool.submit(tlc.run_tlc, "PycCache.tla", cfg, workers=4, coverage=True, dump_dot=os.path.join(d, label))
     for inv in ("I1marked", "I1plain"):
         cfg = _cfg(d, "conc_" + inv, inv="INVARIANT %s\n" % inv, **_conc_kw(ctx))
-        fut["conc_" + inv] = tpool.submit(tlc.run_tlc, "PycCache.tla", cfg, workers=4)
+        fut["conc_" + inv] = tpool.submit(tlc.run_tlc, "PycCache.tla", cfg, workers=1)    # one worker: BFS-shortest, reproducible
     cfg = _cfg(d, "conc", inv="", **_conc_kw(ctx))
     fut["conc"] = tpool.submit(tlc.run_tlc, "PycCache.tla", cfg, workers=4, coverage=True, dump_dot=os.path.join(d, "conc"))
     return fut
@@ -1164,8 +1199,8 @@ def _r2_concurrent(rep, ctx, d, pool, tier, rnd, fut):
     res = fut["conc"].result()
     rep.tlc(res, f"faithful model ({ctx.marker_mode}/{ctx.patch_mode}), 2 threads: graph for schedules")
     g = tlc.parse_dot(dot + ".dot")
-    out = g.out()
-    n_sched = 80 if tier == "quick" else 1500
+    out = {n: sorted(v) for n, v in g.out().items()}
+    n_sched = 80 if tier == "quick" else 800
     seen = set()
     starts = [(a, t) for a, t in out[g.init[0]]]
     tries = 0
@@ -1257,7 +1292,7 @@ def _r2_concurrent(rep, ctx, d, pool, tier, rnd, fut):
 def _r3_traces(rep, ctx, d, tier, rnd):
     from verifkit import tlc
     from verifkit.util import write_file
-    cap = 20000 if tier == "quick" else 300000
+    cap = 20000 if tier == "quick" else 150000
     traces = list(ctx.traces)
     # first trace first (the very first hooked run of this check, with beartype's lazy imports)
     head, rest = traces[:1], traces[1:]
@@ -1301,8 +1336,11 @@ def _r3_traces(rep, ctx, d, tier, rnd):
         head = [t for t in head if t is not bad]
         rest = [t for t in rest if t is not bad]
     else:
+        if rep.violations:      # an implementation that already breaks C16 need not follow the modelled protocol
+            rep.note("PycCacheTrace.tla rejects the recorded runs of this (violating) implementation; R3 skipped")
+            return 0
         rep.machinery("PycCacheTrace.tla rejects too many recorded runs: the trace specification does not bind")
-    if dropped > max(3, len(used) // 20):
+    if dropped > max(3, len(used) // 20) and not rep.violations:
         rep.machinery(f"{dropped} recorded behaviours are not behaviours of the faithful model")
     rep.add("traces_validated_against_impl", len(used))
     rep.add("trace_events", len(lines))
